@@ -620,6 +620,17 @@ func replayFile(prop, path string, hs []*Harness) int {
 		rep = strings.HasPrefix(outs[0].End, "VP-PANIC") || outs[0].End == "VP-CRASH"
 	case "deadlock":
 		rep = outs[0].End == "VP-DEADLOCK"
+	case "race":
+		n.BuildRace()
+		if n.RaceBin == "" {
+			fmt.Println(n.RaceErr)
+			return 3
+		}
+		rv := vecForNative(h, rp.Vector, rp.Tier)
+		rv["Vec"].(map[string]string)["vp!seq"] = "0"
+		raw := n.RunRace(rv, 5)
+		fmt.Println(firstLines(raceExcerpt(raw), 20))
+		rep = strings.Contains(raw, "DATA RACE") || strings.Contains(raw, "concurrent map")
 	}
 	if rep {
 		fmt.Printf("VIOLATION property=%s replay=%s\n", prop, path)
